@@ -733,7 +733,21 @@ def item_grid_messages(story_id, I, other_story=None, kmax=3, full=True, unk='zz
                 yield kind, dict(story_ref=sref, ids=list(tup))
             for s in I[:2]:
                 yield kind, dict(story_ref=sref, ids=[s, s])
+                for o in [x for x in I if x != s][-1:]:
+                    yield kind, dict(story_ref=sref, ids=[s, s, o])      # a repeat, then one more ID
+            if elsewhere:
+                yield kind, dict(story_ref=sref, ids=[elsewhere])       # an ID only ANOTHER story has
+                for s in I[:1]:
+                    yield kind, dict(story_ref=sref, ids=[elsewhere, s])
         for kind in ('roItemMoveMultiple', 'EAItemMove'):
+            if elsewhere:
+                for t in (list(I[:1]) + [BLANK]):
+                    yield kind, dict(story_ref=sref, ids=[elsewhere], target=t)
+                    for s in I[-1:]:
+                        if s != t:
+                            yield kind, dict(story_ref=sref, ids=[s, elsewhere], target=t)
+                for s in I[:1]:
+                    yield kind, dict(story_ref=sref, ids=[s], target=elsewhere)
             for tup in _k_tuples(list(I), kmax):
                 rest = [x for x in I if x not in tup]
                 for t in rest + [BLANK, UNK]:
@@ -751,6 +765,12 @@ def item_grid_messages(story_id, I, other_story=None, kmax=3, full=True, unk='zz
         for a in pool:
             for b in pool:
                 yield 'EAItemSwap', dict(story_ref=sref, ids=[a, b])
+        if elsewhere:
+            for a in I[:1]:
+                yield 'EAItemSwap', dict(story_ref=sref, ids=[a, elsewhere])
+                yield 'EAItemSwap', dict(story_ref=sref, ids=[elsewhere, a])
+            for kind in ('roItemReplace', 'EAItemReplace'):
+                yield kind, dict(story_ref=sref, target=elsewhere, carried=[new('n1')])
         if other_story:
             # element_source also holds a storyID - of another story that has items with the same IDs
             for tup in _k_tuples(list(I), min(kmax, 2)):
